@@ -5,6 +5,7 @@
 #include <stdint.h>
 #include <stddef.h>
 #include <stdarg.h>
+#include <sys/types.h>
 
 /* ---------- enumerator / supervisor ---------- */
 /* engine entry point, called in each executor child; enumerates groups and cases */
@@ -25,6 +26,9 @@ void vh_transitions(long n);          /* API calls that are transitions */
 void vh_nontrivial(void);             /* current case is non-trivial by the engine's rule */
 void vh_count(const char *name, long n);   /* free-form extra counters (max 16 names) */
 void vh_violation(const char *site, const char *fmt, ...) __attribute__((format(printf, 2, 3)));
+#define VH_RSS_LIMIT_MB 1024              /* the engines stay below 200 MiB; 16 workers at this limit still fit the machine. A wild memory walk under sanitizer shadow does not */
+long vh_rss_mb(pid_t pid);
+int vh_wait_child(pid_t p, int *status);  /* waitpid that ends a child growing beyond VH_RSS_LIMIT_MB (then returns 1) */
 long vh_violations(void);           /* violations reported so far by this worker */
 void vh_note(const char *fmt, ...) __attribute__((format(printf, 1, 2)));
 int vh_replaying(void);
